@@ -30,7 +30,7 @@ TECH_X = "differential correspondence with the Coq model (extracted) + implement
 CLAIMED = {
  "C01": P("Whole-parser Gallina model with explicit Panic/Hang/OutOfFuel results; every generated/adversarial document under random plugin subsets, orders and nesting limits must parse, walk and render (HTML, XHTML, recording renderer) without panic, abort or hang in debug and release builds, and agree with the model on tree, ranges, HTML and events." + PENDING % "C01", "DESIGN.md section 6 C01", category="exploration", technique=TECH_X),
  "C02": P("Nesting families at 1x..200x the limit under limits {0,1,2,3,10,100}: tree depth (emphasis wrappers not counted) <= 3*limit+4, measured recursion gauge (hook) <= limit+2, recursive walk returns; emphasis-only excess is the open known finding F3; model/implementation correspondence on the same inputs." + PENDING % "C02", "DESIGN.md section 6 C02", category="exploration", technique=TECH_X),
- "C03": P("Without the raw-HTML plugins a strict reader of the renderer's output language must accept HTML and XHTML for hostile and generated input (known elements, nesting, allowed attributes, quoted escaped values, escaped character data); escape_html tied to the model on every character class; model/implementation correspondence." + PENDING % "C03", "DESIGN.md section 6 C03", category="exploration", technique=TECH_X),
+ "C03": P("Machine-checked Coq proofs: escape_html leaves no raw '<', '>' or double quote and is lossless for a reader decoding the four entities (all byte strings); text events and attribute names/values reach the output only through it, values always double-quoted (chunk structure of the serializer, see C19). NOT proved yet: that the parser never produces raw-HTML nodes without the HTML plugins, and proper nesting of the emitted elements; these are decided on every run by a strict reader of the renderer's output language applied to the implementation's HTML/XHTML for hostile and generated input under random plugin sets without the HTML plugins, and by the correspondence with the whole-parser model.", "DESIGN.md section 6 C03"),
  "C04": P("Scheme x obfuscation x link-syntax table plus generated documents: every href/src, read the way a browser reads it, is not javascript/vbscript/file/data (image whitelist excepted); normalize_link/validate_link unit correspondence; model/implementation correspondence." + PENDING % "C04", "DESIGN.md section 6 C04", category="exploration", technique=TECH_X),
  "C05": P("Range oracle (validity, boundaries, root, nesting, sibling order, faithful Text/TextSpecial) on every node of generated documents biased to tabs, multi-byte text, CR/CRLF and nested inline content; model/implementation correspondence on every range." + PENDING % "C05", "DESIGN.md section 6 C05", category="exploration", technique=TECH_X),
  "C06": P("Metamorphic relations on tab-free documents: '> '-prefixing gives the blockquote wrapper and shifts every range by the inserted bytes; placing D in a loose list item gives the list wrapper; model/implementation correspondence on all three parses." + PENDING % "C06", "DESIGN.md section 6 C06", category="exploration", technique=TECH_X),
@@ -41,12 +41,12 @@ CLAIMED = {
  "C11": P("Payload x {fence, four-space indent, backtick span} x {top level, block quote, list item}: content field and escaped HTML equal the payload; cutws/indent unit correspondence for the tab-stop arithmetic; model/implementation correspondence." + PENDING % "C11", "DESIGN.md section 6 C11", category="exploration", technique=TECH_X),
  "C12": P("Every named reference of the implementation's table (thorough tier), numeric references over boundary/invalid code points and all 32 escapes in five contexts: decoded characters agree; escape-everything round trip on random printable lines; unescape_all / entity / code-point validity unit correspondence." + PENDING % "C12", "DESIGN.md section 6 C12", category="exploration", technique=TECH_X),
  "C13": P("Label pairs related by case and whitespace variants x use forms x definition placement x multiplicity: resolves iff equal under full case folding + whitespace collapsing, first definition wins, definitions produce no output; normalize_reference unit correspondence (tables dumped from the implementation)." + PENDING % "C13", "DESIGN.md section 6 C13", category="exploration", technique=TECH_X),
- "C14": P("Tree-shape oracle (final kinds only, Root at top, list/item discipline, inline under leaf blocks/items/inline containers, childless leaves, no empty or adjacent Text) on generated and delimiter-heavy documents under random plugin sets; model/implementation correspondence on trees." + PENDING % "C14", "DESIGN.md section 6 C14", category="exploration", technique=TECH_X),
+ "C14": P("Machine-checked Coq proofs, for every tree, about the clean-up pass that produces the final shape (FragmentsJoin): afterwards no node anywhere has a delimiter placeholder, an empty Text or two adjacent Text nodes among its children, all other nodes are kept in order and the text is preserved (C14_fragments_join_partial, C14_join_keeps_others, C14_join_keeps_text). The remaining clauses of the full statement (kinds per parent, Root only at the top, childless leaves, no InlineRoot) are NOT proved yet; they are decided on every run by the tree-shape oracle on the implementation's trees and by the correspondence with the whole-parser model (random plugin sets containing the paragraph rule, delimiter-heavy inputs, nesting limits).", "DESIGN.md section 6 C14"),
  "C15": CLAIMED_C15,
  "C16": P("Dual-run probe (hook): every rule is called in look-ahead mode right before its real call in both tokenizer loops and contradictions are recorded; custom block rule in both permitted look-ahead styles, first or last in the chain, after every container: identical HTML; model/implementation correspondence." + PENDING % "C16", "DESIGN.md section 6 C16", category="exploration", technique=TECH_X),
  "C17": CLAIMED_C17,
- "C18": P("For generated image descriptions (escapes, references, breaks, nested emphasis/links/images, deep emphasis) the alt attribute equals the tag-stripped text of the same inline content rendered as a paragraph; model/implementation correspondence." + PENDING % "C18", "DESIGN.md section 6 C18", category="exploration", technique=TECH_X),
- "C19": P("An independent Python serializer applied to the implementation's own renderer events (recorded through the public Renderer trait) reproduces HTML and XHTML, purity flag (render twice, tree unchanged), outputs above 16 KiB, NUL in every sink, two fence prefixes interleaved in one process; the model's events and serializer are compared with the implementation." + PENDING % "C19", "DESIGN.md section 6 C19", category="exploration", technique=TECH_X),
+ "C18": P("Machine-checked Coq proofs for every tree: the alt text computed by Image::render is the concatenation over the pre-order walk of the image's subtree of each node's own text (Text, decoded escape/reference, line feed for breaks), it is the value of the alt attribute issued through the renderer interface, and for every inline subtree (childless leaves, no node attribute named alt) it equals the text its own renderer events display (text events, a line feed per break event, the alt of nested images). Tied to /repo on every run by the correspondence of the whole-parser model (tree, HTML, events) and an implementation-side oracle comparing every <img alt> with the text recomputed from the dumped tree, on generated descriptions incl. 300-level emphasis nesting.", "DESIGN.md section 6 C18"),
+ "C19": P("Machine-checked Coq proofs for every event sequence: the built-in serializer appends exactly one chunk per renderer event and nothing else (open/close/self-close tags with escaped double-quoted attributes, escaped text, raw text, a line feed for a break event unless the output is empty or already ends with one), XHTML equals HTML chunk by chunk except for ' /' before the final '>' of self-close chunks, and U+0000 never reaches the output. Purity of rendering is a typing fact in the model and is checked on the implementation (render twice, tree dump before/after). Tied to /repo on every run: an independent Python serializer is applied to the events the implementation issues through the public Renderer trait and must reproduce Node::render and Node::xrender; the model's events and output are compared with the implementation's (all plugin sets, two fence prefixes interleaved, outputs above 16 KiB, NUL in every sink).", "DESIGN.md section 6 C19"),
  "C20": P("Machine-checked Coq proofs: (storage) under the invariant 'one entry per type id, each boxed value has the type of its key', insert / get_or_insert / get_mut+assign / remove / clear / contains / len refine a total map type id -> option value for all keys and values, the invariant holds after any operation sequence from the empty set and no downcast ever fails; (traversal) walk lists exactly the nodes at the valid child-index paths, each once, parents first and siblings in order, with depth = start depth + path length, for every tree; walk_mut visits the same addresses whatever the callback does; replace changes the kind only. The model is tied to /repo on every run by differential correspondence (eset scripts over five value types incl. zero-sized and same-layout ones, walk/walk_mut/replace on random and > 256-level-deep shapes) and an independent Python specification.", "DESIGN.md section 6 C20", note=COMMON_NOTE + " TypeId injectivity and HashMap-as-finite-map are trusted."),
 }
 
